@@ -97,6 +97,8 @@ def gen_cases(tier, seed):
                                         '2020-05-05\r\n10:11:12Z', '2020-05-05 10:11:12'])
             if rng.random() < 0.3:
                 kw['lat'], kw['lng'] = round(rng.uniform(-90, 90), rng.randint(0, 8)), round(rng.uniform(-180, 180), rng.randint(0, 8))
+                if rng.random() < 0.15:
+                    kw.pop(rng.choice(['lat', 'lng']))     # incomplete geo information
         elif h == 'geo':
             lat = rng.choice([0.0, -0.0, 38.8976763, -90, 90, 1e-9, -1e-9, 5e-9, 0.000000004, 12, 1e-7, 89.99999999, rng.uniform(-90, 90)])
             lng = rng.choice([0.0, -77.0365297, 180, -180, 1e-8, 0.1 + 0.2, 100, rng.uniform(-180, 180), 179.999999995])
